@@ -25,7 +25,6 @@ TRUSTED = []
 
 K_B = 256          # class-B factor (calibrated: worst observed ratio on the unchanged tree x16, see evidence 'max_ratio')
 TOL_ORACLE = Fraction(1, 2 ** 36)
-ZONE_CLAUSE = "extrapolation zone: Local_Minimum/Local_Maximum omit the end knot inside [x1,x2]"
 ATOL = Fraction(1, 2 ** 1000)   # underflow to zero / denormals are not in the model
 
 
@@ -399,13 +398,9 @@ def oracle(meta, ops, vi, vm, ctx):
         tol = float(TOL_ORACLE) * max(abs(m), abs(M), max(abs(s) for s in S[:nin]))
         tolg = float(TOL_ORACLE) * max(abs(gm), abs(gM), ymax)
         lo, hi = min(S[:nin]), max(S[:nin])
-        if meta.get("zone") and (lo < m - tol or hi > M + tol):
-            # genuine, reported: with a limit in the 1% zone the end knot x_0 / x_{N-1} is inside [x1,x2] but is
-            # not among the candidates (Locate returns 0 / N-2 there)
-            out.append(fail("prop", ZONE_CLAUSE, "samples %r..%r vs returned [%r,%r]" % (lo, hi, m, M)))
-        elif lo < m - tol:
+        if lo < m - tol:
             out.append(fail("prop", "an evaluation inside [x1,x2] lies below Local_Minimum", "sample %r < %r" % (lo, m)))
-        if not meta.get("zone") and hi > M + tol:
+        if hi > M + tol:
             out.append(fail("prop", "an evaluation inside [x1,x2] lies above Local_Maximum", "sample %r > %r" % (hi, M)))
         if meta["allknots"]:
             if lo > m + tol:
